@@ -2,6 +2,9 @@ package main
 
 import "fmt"
 
+// warmFlavours lists the build flavours that `vcheck warm` pre-builds.
+var warmFlavours = []string{"vtime", "plain"}
+
 // genSched is replaced by the real rewriter in rewrite.go once built.
 var genSched = func(ovDir string, srcs []string, repl map[string]string) error {
 	return fmt.Errorf("sched flavour not built")
